@@ -60,6 +60,22 @@ PERTURB = [
 ]
 
 
+SHIM = {"path": None}
+
+
+def build_shim():
+    """harness/mshuffle.c: LD_PRELOAD allocator shim that hands out small chunks in a seeded random address order"""
+    outd = os.path.join(vlib.BUILD, "harness")
+    os.makedirs(outd, exist_ok=True)
+    so = os.path.join(outd, "libmshuffle.so")
+    rc, out, err = vlib.run(["gcc", "-shared", "-fPIC", "-O1", "-o", so, os.path.join(vlib.VERIF, "harness", "mshuffle.c"), "-lpthread"], timeout=300)
+    if rc != 0:
+        raise vlib.InfraError("cannot build the allocator shim\n" + (out + err)[-1500:])
+    SHIM["path"] = so
+    for sd in (1, 2, 3):
+        PERTURB.append({"name": "shuffle%d" % sd, "env": {"LD_PRELOAD": so, "VERIF_MALLOC_SEED": str(sd)}, "prefix": [], "depth": sd % 2, "order": sd})
+
+
 def make_tree(files, base, depth, order, seed):
     root = base
     for i in range(depth):
@@ -133,6 +149,13 @@ def load_inputs(tier, seed):
             lines = lines[:1200]
         lib = fn.split(".")[0]
         items.append(("cfg-" + fn, {fn: "".join(lines)}, base_opts + ["--library=" + lib, "--check-level=exhaustive"], fn, False, seed))
+    # class-heavy C++ with inconclusive findings: several findings of the same check are collected in containers before they
+    # are reported (the order of such a container must not depend on addresses)
+    cls = "".join("class V%d { public: V%d() {} ~V%d() {} virtual int f%d() { return m; } int m; int n; };\n"
+                  "class W%d : public V%d { public: int g() { return f%d(); } };\n" % (i, i, i, i, i, i, i) for i in range(12))
+    cls += "".join("struct S%d { S%d() : a(0) {} int a; int b%d; char *p; S%d(const S%d &o) : a(o.a) {} };\n" % (i, i, i, i, i) for i in range(8))
+    items.append(("classes", {"cls.cpp": cls}, base_opts, "cls.cpp", False, seed))
+    items.append(("classes-dump", {"cls.cpp": cls}, ["-q", "--template=" + projgen.TEMPLATE, "--enable=style", "--inconclusive"], "cls.cpp", True, seed))
     tpl = ("template<class T> struct A { T v; T get() const { return v; } };\n"
            "template<class T, int N> struct B { T a[N]; T at(int i) { return a[i]; } };\n"
            + "".join("int f%d() { A<int> a; B<char,%d> b; a.v = %d; return a.get() + b.at(%d); }\n" % (i, i + 1, i, i + 2) for i in range(40)))
@@ -143,6 +166,8 @@ def load_inputs(tier, seed):
 def main(tier, seed, replay=None):
     t0 = time.time()
     vlib.build()
+    if SHIM["path"] is None:
+        build_shim()
     items = load_inputs(tier, seed)
     if replay:
         want = json.load(open(replay))["input"]
